@@ -64,3 +64,19 @@ def affine(mesh, A, t):
     A = np.asarray(A, dtype=float)
     mesh.coord = mesh.coord @ A.T + np.asarray(t, dtype=float)
     return mesh
+
+
+def mesh_mixed_2d(tri="TRI3", quad="QUAD4", h=1 / 3):
+    """conforming rectangle [0,3]x[0,1]: triangles on [0,1]x[0,1], quadrangles on [1,3]x[0,1] (Mesh.Merge)"""
+    from EasyFEA import Mesh
+    a = Points([Point(0, 0), Point(1, 0), Point(1, 1), Point(0, 1)], h).Mesh_2D([], ElemType(tri))
+    b = Points([Point(1, 0), Point(3, 0), Point(3, 1), Point(1, 1)], h).Mesh_2D([], ElemType(quad), isOrganised=True)
+    return Mesh.Merge([a, b])
+
+
+def mesh_mixed_3d(prism="PRISM6", hexa="HEXA8", h=1 / 2, layers=2):
+    """conforming box [0,2]x[0,1]x[0,1]: prisms on x<1, hexahedra on x>1 (Mesh.Merge)"""
+    from EasyFEA import Mesh
+    a = Points([Point(0, 0), Point(1, 0), Point(1, 1), Point(0, 1)], h).Mesh_Extrude([], [0, 0, 1], [layers], ElemType(prism), isOrganised=True)
+    b = Points([Point(1, 0), Point(2, 0), Point(2, 1), Point(1, 1)], h).Mesh_Extrude([], [0, 0, 1], [layers], ElemType(hexa), isOrganised=True)
+    return Mesh.Merge([a, b])
